@@ -269,10 +269,17 @@ impl Worker {
         let log = std::fs::OpenOptions::new().create(true).append(true).open(log).expect("log file");
         Worker { status, log }
     }
-    /// announce the case about to run (one pwrite; the supervisor polls it)
+    /// announce the case about to run (one pwrite; the supervisor polls it). `phase` 0 = the
+    /// harness is still generating the case (not billed to lopdf), 1 = the entry points run
     pub fn begin_case(&mut self, index: u64, len: usize) {
+        self.announce(index, len, 1);
+    }
+    pub fn generating(&mut self, index: u64) {
+        self.announce(index, 0, 0);
+    }
+    fn announce(&mut self, index: u64, len: usize, phase: u8) {
         use std::os::unix::fs::FileExt;
-        let line = format!("{:>20} {:>12} \n", index, len);
+        let line = format!("{:>20} {:>12} {} \n", index, len, phase);
         let _ = self.status.write_at(line.as_bytes(), 0);
     }
     pub fn log(&mut self, v: Value) {
@@ -380,10 +387,10 @@ fn proc_cpu_secs(pid: u32) -> Option<f64> {
     Some((ut + st) / hz)
 }
 
-fn read_status(p: &Path) -> Option<(u64, usize)> {
+fn read_status(p: &Path) -> Option<(u64, usize, u8)> {
     let s = std::fs::read_to_string(p).ok()?;
     let mut it = s.split_whitespace();
-    Some((it.next()?.parse().ok()?, it.next()?.parse().ok()?))
+    Some((it.next()?.parse().ok()?, it.next()?.parse().ok()?, it.next().and_then(|x| x.parse().ok()).unwrap_or(1)))
 }
 
 /// re-run one case under gdb and return the lopdf frames of the crash (innermost first)
@@ -435,7 +442,7 @@ pub fn supervise(
         log: PathBuf,
         stderr: PathBuf,
         next_from: u64,
-        cur: Option<(u64, usize)>,
+        cur: Option<(u64, usize, u8)>,
         cur_cpu0: f64,
         cur_wall0: Instant,
         done: bool,
@@ -508,6 +515,18 @@ pub fn supervise(
                 // crash: classify from signal + stderr
                 let errtxt = std::fs::read_to_string(&w.stderr).unwrap_or_default();
                 let idx = w.cur.map(|c| c.0).unwrap_or(w.next_from);
+                if w.cur.map(|c| c.2) == Some(0) {
+                    // died while the harness was generating a case: not an observation about lopdf
+                    out.inconclusive.push(format!("worker {} died while generating case {}: {}", k, idx, errtxt.lines().last().unwrap_or("")));
+                    w.next_from = idx + 1;
+                    w.restarts += 1;
+                    if start.elapsed().as_secs_f64() > cfg.run_secs || w.restarts > 2000 {
+                        w.done = true;
+                    } else {
+                        spawn(k, w);
+                    }
+                    continue;
+                }
                 let kind = if errtxt.contains("has overflowed its stack") {
                     "stack_overflow"
                 } else if errtxt.contains("memory allocation of") {
@@ -529,7 +548,22 @@ pub fn supervise(
                 continue;
             }
             // CPU budget of the in-flight case
-            if let Some((idx, len)) = w.cur {
+            if let Some((idx, _, 0)) = w.cur {
+                // generation phase: only a generous wall-clock watchdog (harness problem, never a verdict on lopdf)
+                if w.cur_wall0.elapsed().as_secs_f64() > 300.0 {
+                    if let Some(c) = w.child.as_mut() {
+                        let _ = c.kill();
+                        let _ = c.wait();
+                    }
+                    out.inconclusive.push(format!("worker {} spent more than 300 s generating case {}", k, idx));
+                    w.next_from = idx + 1;
+                    if start.elapsed().as_secs_f64() > cfg.run_secs {
+                        w.done = true;
+                    } else {
+                        spawn(k, w);
+                    }
+                }
+            } else if let Some((idx, len, _)) = w.cur {
                 let budget = cfg.cpu_budget_base_s + cfg.cpu_budget_per_byte_s * len as f64;
                 let used = proc_cpu_secs(pid).unwrap_or(0.0) - w.cur_cpu0;
                 let wall = w.cur_wall0.elapsed().as_secs_f64();
